@@ -261,3 +261,18 @@ reg('C18',
     level_text='Exhaustive over all codes, and over all quote placements around both places where escaping and the 255-character cut interact.',
     level_note='texts longer than 255 are pushed with an explicit length (the automatic length stops at 255)',
     design_ref='DESIGN.md section 3 / C18')
+
+reg('C07',
+    title='every value the library formats as a result decodes back to the same value',
+    src='c07_roundtrip.c',
+    configs={'quick': ['def', 'dtostre', 'def+fast'], 'thorough': ['def', 'dtostre', 'def+fast']},
+    deadline={'quick': 100, 'thorough': 1500},
+    level=MC,
+    technique='bounded-exhaustive round trip through the real code both ways (SCPI_Result* -> captured response -> SCPI_Input -> SCPI_Param*), exhaustive over the 8/16-bit spaces and, at token level, over the 32-bit space',
+    rule={'quick': 'through SCPI_Input (ASan): all 2^8 and 2^16 values of the 8/16-bit types in bases 2/8/10/16; 32/64-bit values m*2^s (m < 256) and complements and powers of each base +-2; booleans; every string of length <= 5 over {a " \' ; NL , blank DEL} and strings of 7..300 characters x 4 fills; blocks of every length 0..1100 x 6 byte patterns; 14 decimal mantissas x every exponent -323..308 x sign and every power of two (+ predecessor) as double and float; ASCII arrays of 0..5 elements of 6 types. Token level (-O2): one value per 64-value stratum of the 32-bit space x {Int32, UInt32 base 2/8/10/16}; non-trivial = round trip whose decoded value was compared',
+          'thorough': 'strings of length <= 6, m < 4096, ALL 2^32 values at token level, floats/doubles also with the built-in formatter'},
+    assumptions=['floats/doubles: decoded value within half a unit of the last emitted digit (one unit with the built-in formatter), computed in double arithmetic with 1e-9 slack',
+                 '64-bit integers, floats and doubles are covered by structured sets only'],
+    level_text='Exhaustive over the 8/16-bit integer spaces, short strings and block lengths through the full input path, and over all 2^32 32-bit values at token level (thorough).',
+    level_note='the token-level sweep calls private lexer functions by name',
+    design_ref='DESIGN.md section 3 / C07')
